@@ -272,7 +272,7 @@ func TestTimers(t *testing.T) {
 	}
 }
 
-func TestEmbeddedReceivesBecomeAwait(t *testing.T) {
+func TestEmbeddedReceivesAreHoisted(t *testing.T) {
 	dir := t.TempDir()
 	w := func(rel, src string) {
 		os.MkdirAll(filepath.Dir(filepath.Join(dir, rel)), 0755)
@@ -287,22 +287,36 @@ func Wait(r *req) error {
 	return <-r.done
 }
 
-func Both(c chan int, d <-chan string) (int, bool, string) {
+func Both(c chan int, d <-chan string, b chan bool) (int, bool, string) {
 	if v, ok := <-c; ok {
 		return v, true, <-d
+	} else if <-b {
+		return 0, false, ""
 	}
-	var s, ok2 = <-d
-	_ = ok2
+	for i := 0; i < 1 && <-b; i++ {
+	}
 	x := <-c
 	select {
 	case y := <-c:
-		return y, false, s
+		return y, false, ""
 	default:
 	}
-	return x + f(<-c), false, s
+	switch <-c {
+	case 7:
+	}
+	return x + f(<-c), false, ""
 }
 
 func f(i int) int { return i }
+
+// Shared reports whether the loop variable is one variable for the whole loop (the go 1.11 semantics of this module).
+func Shared() bool {
+	var ps []*int
+	for _, v := range []int{1, 2} {
+		ps = append(ps, &v)
+	}
+	return ps[0] == ps[1]
+}
 `)
 	w("x_test.go", `package x
 
@@ -314,26 +328,30 @@ func TestWait(t *testing.T) {
 	if Wait(r) != nil {
 		t.Fatal()
 	}
-	c, d := make(chan int, 4), make(chan string, 2)
+	c, d, b := make(chan int, 4), make(chan string, 2), make(chan bool, 2)
 	c <- 1
-	c <- 2
-	c <- 3
 	d <- "a"
-	d <- "b"
-	v, ok, s := Both(c, d)
+	v, ok, s := Both(c, d, b)
 	if v != 1 || !ok || s != "a" {
 		t.Fatal(v, ok, s)
 	}
+	if !Shared() {
+		t.Fatal("instrumentation changed the language version of the file")
+	}
 }
 `)
-	if _, err := Library(dir); err != nil {
+	rep, err := Library(dir)
+	if err != nil {
 		t.Fatal(err)
 	}
 	a, _ := os.ReadFile(filepath.Join(dir, "a.go"))
-	for _, want := range []string{"return zzsimrt.Await(r.done)", "v, ok := zzsimrt.AwaitOK(c)", "zzsimrt.Await(d)", "f(zzsimrt.Await(c))", "case y := <-c:", "x := <-c"} {
+	for _, want := range []string{":= <-r.done; zzsimrt.EndBlocking(); return zzv", "ok := <-c; zzsimrt.EndBlocking(); if v, ok := zzv", "} else if <-b {", "i < 1 && <-b;", "case y := <-c:", "switch zzv", "f(zzv"} {
 		if !strings.Contains(string(a), want) {
 			t.Fatalf("missing %q in\n%s", want, a)
 		}
+	}
+	if strings.HasPrefix(string(a), "//go:build") || len(rep.Unmodelled) < 2 {
+		t.Fatalf("%v\n%s", rep.Unmodelled, a)
 	}
 	cmd := exec.Command("go", "test", "-race", "./...")
 	cmd.Dir = dir
